@@ -157,18 +157,64 @@ pub fn workers() -> usize {
 }
 
 /// Explore every index of a family; returns the merged accumulator.
+/// property and tier of the running check, for the watchdog's report
+static RUNNING: std::sync::Mutex<(String, String)> = std::sync::Mutex::new((String::new(), String::new()));
+
+/// processor time one case may consume before the watchdog reports it as a hang (the slowest
+/// legitimate in-process case of any family takes a few seconds)
+const CASE_CPU_BUDGET_S: f64 = 120.0;
+
+/// processor seconds consumed so far by one thread of this process
+fn thread_cpu_seconds(tid: i64) -> Option<f64> {
+    let s = std::fs::read_to_string(format!("/proc/self/task/{}/stat", tid)).ok()?;
+    let rest = &s[s.rfind(')')? + 1..];
+    let f: Vec<&str> = rest.split_whitespace().collect();
+    let ut: f64 = f.get(11)?.parse().ok()?;
+    let st: f64 = f.get(12)?.parse().ok()?;
+    let tck = unsafe { libc::sysconf(libc::_SC_CLK_TCK) } as f64;
+    Some((ut + st) / if tck > 0.0 { tck } else { 100.0 })
+}
+
+/// A case that never returns would stall the whole check. The watchdog looks at every worker once a
+/// second; a worker that has spent CASE_CPU_BUDGET_S of processor time inside one case is reported
+/// as a violation (the implementation does not return), with a replay file naming the case, and
+/// the process exits 1. Judged by processor time of the thread, never by the wall clock.
+fn report_hang(family: &str, index: u64, cpu: f64) -> ! {
+    let (prop, tier) = RUNNING.lock().map(|g| g.clone()).unwrap_or_default();
+    let dir = verif_dir();
+    let rdir = format!("{}/replays/{}", dir, prop);
+    let _ = std::fs::create_dir_all(&rdir);
+    let path = format!("{}/{}-hang.json", rdir, tier);
+    let key = format!("no-result family {} (a case does not return)", family);
+    let body = json!({
+        "property": prop, "tier": tier, "key": key, "family": family, "index": index,
+        "expected": "a value or an error",
+        "observed": format!("no result after {:.0} s of processor time in this one case", cpu),
+        "replay": format!("./check {} --replay {}", prop, path),
+    });
+    let _ = std::fs::write(&path, serde_json::to_string_pretty(&body).unwrap_or_default());
+    println!("VIOLATION property={} replay={}", prop, path);
+    println!("  key={} family={} index={} observed=no result after {:.0} s of processor time", key, family, index, cpu);
+    std::process::exit(1);
+}
+
 pub fn explore(fam: &Family) -> Acc {
     let n = fam.size;
     let nw = workers().max(1);
     let chunk: u64 = ((n / (nw as u64 * 64)).max(1)).min(4096);
     let next = AtomicU64::new(0);
     let mut total = Acc::default();
+    // per worker: thread id and the case it is in (u64::MAX = between cases)
+    let slots: Vec<(std::sync::atomic::AtomicI64, AtomicU64)> = (0..nw).map(|_| (std::sync::atomic::AtomicI64::new(0), AtomicU64::new(u64::MAX))).collect();
+    let done = std::sync::atomic::AtomicBool::new(false);
     let accs: Vec<Acc> = std::thread::scope(|s| {
         let mut hs = Vec::new();
-        for _ in 0..nw {
-            hs.push(s.spawn(|| {
+        for w in 0..nw {
+            let (next, slots) = (&next, &slots);
+            hs.push(s.spawn(move || {
                 let mut acc = Acc::default();
                 acc.family = fam.name.clone();
+                slots[w].0.store(unsafe { libc::syscall(libc::SYS_gettid) } as i64, Ordering::Relaxed);
                 loop {
                     let start = next.fetch_add(chunk, Ordering::Relaxed);
                     if start >= n {
@@ -177,13 +223,42 @@ pub fn explore(fam: &Family) -> Acc {
                     let end = (start + chunk).min(n);
                     for i in start..end {
                         acc.index = i;
+                        slots[w].1.store(i, Ordering::Relaxed);
                         (fam.run)(i, &mut acc);
                     }
                 }
+                slots[w].1.store(u64::MAX, Ordering::Relaxed);
                 acc
             }));
         }
-        hs.into_iter().map(|h| h.join().expect("worker panicked (machinery error)")).collect()
+        // the watchdog
+        let (slots, done) = (&slots, &done);
+        s.spawn(move || {
+            // (case seen at the last look, processor time of the thread when it entered that case)
+            let mut seen: Vec<(u64, f64)> = vec![(u64::MAX, 0.0); slots.len()];
+            while !done.load(Ordering::Relaxed) {
+                std::thread::sleep(std::time::Duration::from_millis(500));
+                for (w, (tid, idx)) in slots.iter().enumerate() {
+                    let (tid, idx) = (tid.load(Ordering::Relaxed), idx.load(Ordering::Relaxed));
+                    if tid == 0 || idx == u64::MAX {
+                        seen[w] = (u64::MAX, 0.0);
+                        continue;
+                    }
+                    let cpu = match thread_cpu_seconds(tid) {
+                        Some(c) => c,
+                        None => continue,
+                    };
+                    if seen[w].0 != idx {
+                        seen[w] = (idx, cpu);
+                    } else if cpu - seen[w].1 > CASE_CPU_BUDGET_S {
+                        report_hang(&fam.name, idx, cpu - seen[w].1);
+                    }
+                }
+            }
+        });
+        let accs = hs.into_iter().map(|h| h.join().expect("worker panicked (machinery error)")).collect();
+        done.store(true, Ordering::Relaxed);
+        accs
     });
     for a in accs {
         total.merge(a);
@@ -268,6 +343,9 @@ pub struct Report {
 
 impl Report {
     pub fn new(prop: &'static str, tier: Tier, level: &'static str) -> Report {
+        if let Ok(mut g) = RUNNING.lock() {
+            *g = (prop.to_string(), tier.name().to_string());
+        }
         Report {
             prop,
             tier,
